@@ -20,6 +20,7 @@ type PropConfig struct {
 	Functions   []string `json:"functions"`          // verified with their contracts
 	Sweep       []string `json:"sweep"`              // verified in zero-annotation mode (safety obligations only)
 	Lemmas      []string `json:"lemmas"`             // SMT lemma files (must be unsat)
+	LemmaPkgs   []string `json:"lemma_pkgs"`         // packages whose `lemma` clauses belong to this property
 	Assumptions []string `json:"assumptions"`        // unchecked assumptions, reported verbatim
 	Kinds       []string `json:"kinds"`              // restrict counted obligations to these kinds (optional)
 	Only        []string `json:"only"`               // substrings: restrict counted obligations (optional)
@@ -125,6 +126,14 @@ func cmdCheck(args []string) int {
 	}
 	for _, f := range pc.Sweep {
 		run(f, true)
+	}
+	for _, lp := range pc.LemmaPkgs {
+		r := P.verifyLemmas(lp)
+		fnres = append(fnres, r)
+		if r.Err != "" {
+			toolErrs = append(toolErrs, r.Name+": "+r.Err)
+		}
+		all = append(all, r.VCs...)
 	}
 	genSecs := time.Since(t0).Seconds() - loadSecs
 	secs, mode := 10, "quick"
